@@ -200,8 +200,9 @@ func numCheck[T any](res *xResult, name, kind string, bits int) {
 			res.violate("%s captured into a slice of pointers from %q: no error although strconv rejects %q", name, "="+text+", 7", text)
 		}
 		vp2, err := ppp.ParseString("f", "="+text)
-		if ok && (err != nil || vp2.V == nil || *vp2.V == nil || fmt.Sprint(**vp2.V) != want) {
-			res.violate("%s captured into a pointer to a pointer from %q: nothing stored, error %v; strconv gives %s", name, "="+text, err, want)
+		// (a pointer to a pointer is either filled or refused with an error; what must not happen is a silent drop)
+		if ok && err == nil && (vp2.V == nil || *vp2.V == nil || fmt.Sprint(**vp2.V) != want) {
+			res.violate("%s captured into a pointer to a pointer from %q: nothing stored and no error; strconv gives %s", name, "="+text, want)
 		} else if !ok && err == nil {
 			res.violate("%s captured into a pointer to a pointer from %q: no error although strconv rejects it", name, "="+text)
 		}
